@@ -3,10 +3,54 @@ from .. import history
 from ..monitor import CaseAbort
 
 
+SUITE_DIRS = {"H": "hypergraphs", "D": "directed_hypergraphs", "T": "temporal_hypergraphs", "M": "multiplex_hypergraphs"}
+CLASS = {"H": "Hypergraph", "D": "DirectedHypergraph", "T": "TemporalHypergraph", "M": "MultiplexHypergraph"}
+
+
+def suite_stage(ctx, kind):
+    """Run the repository's own tests with the container monitors on (pytest plugin) and merge what they observed.
+    quick: the class's own test directory; thorough: the whole suite."""
+    import json
+    import os
+    import subprocess
+    import sys
+    import tempfile
+    from ..driver import repo_path, VERIF
+
+    repo = repo_path()
+    targets = [os.path.join("tests", "core", SUITE_DIRS[kind])] if ctx.tier == "quick" else ["tests"]
+    fd, out = tempfile.mkstemp(prefix="hgxmon_suite_", suffix=".json")
+    os.close(fd)
+    env = dict(os.environ, HGX_VERIF="1", HGXMON_SUITE_OUT=out, PYTHONPATH=repo + os.pathsep + VERIF, PYTHONDONTWRITEBYTECODE="1")
+    try:
+        pr = subprocess.run([sys.executable, "-m", "pytest", "-q", "-p", "no:cacheprovider", "-p", "hgxmon.pytest_plugin", "--timeout=900"] + targets,
+                            cwd=repo, env=env, capture_output=True, text=True, timeout=1500)
+        with open(out) as fh:
+            d = json.load(fh)
+    except Exception as e:
+        ctx.inconclusive_case("suite-under-monitor-did-not-run:" + type(e).__name__)
+        return
+    finally:
+        if os.path.exists(out):
+            os.remove(out)
+    ctx.event("suite-under-monitor:mutating-calls-observed", d.get("calls", 0))
+    ctx.event("suite-under-monitor:objects-too-large-skipped", d.get("skipped_large", 0))
+    ctx.tick("suite-under-monitor:battery", sum(v for k, v in d.get("monitors", {}).items() if CLASS[kind] in k))
+    for k, v in d.get("notes", {}).items():
+        ctx.note("suite:" + k[:120], v)
+    if d.get("exitstatus", 1) != 0:
+        ctx.note("suite-under-monitor:pytest-exit-%s" % d.get("exitstatus"))
+    for v in d.get("violations", []):
+        if v["mechanism"].startswith("suite:" + CLASS[kind] + ":"):
+            ctx.violation(v["mechanism"], v["detail"])
+
+
 def make(kind, prop, quick, thorough, long_every=30):
     tag = kind
 
     def run_case(ctx, rng, idx):
+        if idx == 0:
+            suite_stage(ctx, kind)
         long = ctx.tier == "thorough" and idx % long_every == 0
         cfg = history.Cfg(rng, kind, long=long)
         cfg.use_constructor = rng.random() < 0.3
